@@ -67,6 +67,12 @@ func systematicPkgCases(id *int, profile, scratch string, rng *rand.Rand, tier s
 		*id++
 		out = append(out, &PkgCase{ID: *id, Profile: profile + ":" + sub, Cfg: c, Nodes: nodes, Root: filepath.Join(scratch, fmt.Sprintf("pkg-%d", *id)), Formats: allFormats})
 	}
+	addEnv := func(c *Cfg, nodes []Node, sub string, edit func(string) string, env map[string]string) {
+		*id++
+		out = append(out, &PkgCase{ID: *id, Profile: profile + ":" + sub, Cfg: c, Nodes: nodes, Root: filepath.Join(scratch, fmt.Sprintf("pkg-%d", *id)), Formats: allFormats,
+			EnvEdit: edit, Env: env})
+	}
+	_ = addEnv
 	plain := Entry{Type: "file", Src: "src/bin", Dst: "/usr/bin/tool"}
 	if profile == "overrides" { // the override groups of the three other profiles
 		for _, p := range []string{"meta", "scripts", "payload"} {
@@ -207,6 +213,38 @@ func systematicPkgCases(id *int, profile, scratch string, rng *rand.Rand, tier s
 				add(c, smallTree(), "numeric-prerelease")
 			}
 		}
+		// version, architecture and platform that reach the parser as environment references: what is packaged is the
+		// normalised value (semver split, GOARCH translation) exactly as for a literal
+		for _, v := range []struct{ ver, arch string }{{"v1.2.3-rc1+git5", "amd64"}, {"1.4.0-beta.2", "mipssoftfloat"}, {"v2.0.0", "arm7"}} {
+			c := baseCfg("envverpkg")
+			c.Version, c.Arch, c.Release = v.ver, v.arch, "2"
+			ver, arch := v.ver, v.arch
+			addEnv(c, smallTree(), "env-version", func(y string) string {
+				y = strings.Replace(y, "version: "+yq(ver), "version: \"${VERIF_VER}\"", 1)
+				return strings.Replace(y, "arch: "+yq(arch), "arch: \"${VERIF_ARCH}\"", 1)
+			}, map[string]string{"VERIF_VER": ver, "VERIF_ARCH": arch})
+		}
+		// every trigger directive of deb; the packager of archlinux; the abi version of ipk
+		{
+			c := baseCfg("trigpkg")
+			c.DebTriggers = []KV2{{"interest", "t-i"}, {"interest_await", "t-ia"}, {"interest_noawait", "t-in"}, {"activate", "t-a"}, {"activate_await", "t-aa"}, {"activate_noawait", "t-an"}}
+			c.ArchPackager, c.ArchPkgbase = "Arch Packager <arch@example.org>", "trigbase"
+			c.IpkABI = "1.1"
+			add(c, smallTree(), "every-directive")
+			for _, one := range c.DebTriggers {
+				c2 := baseCfg("trigone")
+				c2.DebTriggers = []KV2{one}
+				add(c2, smallTree(), "one-directive")
+			}
+		}
+		// a prerelease that equals the release; schema none with explicit components that happen to end the version; a
+		// verbatim version with a tilde
+		for _, v := range []struct{ ver, schema, pre, meta, rel string }{{"1.2.3-1", "", "", "", "1"}, {"3.0.0-2", "", "", "", "2"}, {"1.2.1", "none", "1", "", ""},
+			{"2024.5", "none", "", "5", ""}, {"4.0b", "none", "b", "", "1"}, {"1.0.0~rc1", "none", "", "", ""}, {"1.2.3.4~git20240101", "", "", "", "1"}} {
+			c := baseCfg("veredge")
+			c.Version, c.Schema, c.Prerelease, c.Metadata, c.Release = v.ver, v.schema, v.pre, v.meta, v.rel
+			add(c, smallTree(), "version-edges")
+		}
 		// a platform other than linux (deb prefixes the architecture with it; apk and archlinux refuse)
 		for _, plat := range []string{"freebsd", "kfreebsd", "darwin"} {
 			c := baseCfg("platpkg")
@@ -279,6 +317,14 @@ func systematicPkgCases(id *int, profile, scratch string, rng *rand.Rand, tier s
 			nodes := append(smallTree(), addScripts(rng, c, slots)...)
 			c.Entries = []Entry{plain}
 			add(c, nodes, "slots")
+		}
+		// scripts together with a changelog (both end up in the package; neither step may skip the other)
+		for _, slots := range [][]string{{"preinstall", "postinstall", "preremove", "postremove"}, {"postinstall", "rpm.pretrans", "rpm.posttrans", "rpm.verify", "deb.rules"}} {
+			c := baseCfg("chlogscripts")
+			nodes := append(smallTree(), addScripts(rng, c, slots)...)
+			c.Changelog = []ChEntry{{"1.2.3", 1500000000, "Jane Doe <jane@example.org>", []string{"note"}}}
+			c.Entries = []Entry{plain}
+			add(c, nodes, "scripts-and-changelog")
 		}
 		// one script file used for several slots (a dispatching maintainer script)
 		for _, slots := range [][]string{{"preinstall", "preremove"}, {"postinstall", "postremove", "preinstall"}, commonSlots} {
@@ -360,6 +406,38 @@ func systematicPkgCases(id *int, profile, scratch string, rng *rand.Rand, tier s
 				c.Entries = []Entry{plain, {Type: ty.t, Src: ty.src, Dst: "/usr/share/doc/docdirpkg/item", Tag: tag}}
 				add(c, smallTree(), "typetag-docdir")
 			}
+		}
+		// globbing disabled: the source is taken literally, the destination rules stay (a trailing slash means "into")
+		{
+			c := baseCfg("noglobpkg")
+			c.NoGlob = true
+			c.Entries = []Entry{plain, {Type: "file", Src: "src/app.conf", Dst: "/etc/noglobpkg/"}, {Type: "config", Src: "src/extra.conf", Dst: "/etc/noglobpkg/"},
+				{Type: "file", Src: "src/sub", Dst: "/usr/share/noglobpkg/"}, {Type: "file", Src: "src/empty", Dst: "/usr/share/noglobpkg/renamed"}}
+			add(c, smallTree(), "noglob-into-dir")
+		}
+		// override blocks for every format AND entries addressed to single packagers: every format built from the one parsed
+		// configuration ships its own entries, whichever formats were built before it
+		{
+			c := baseCfg("ovtagpkg")
+			c.Ov = map[string]*OvCfg{}
+			for _, f := range allFormats {
+				c.Ov[f] = &OvCfg{Depends: []string{"dep-" + f}}
+			}
+			c.Entries = []Entry{plain}
+			for _, f := range []string{"rpm", "deb", "apk", "ipk", "archlinux"} {
+				c.Entries = append(c.Entries, Entry{Type: "file", Src: "src/app.conf", Dst: "/etc/ovtagpkg/only-" + f + ".conf", Tag: f})
+			}
+			c.Entries = append(c.Entries, Entry{Type: "file", Src: "src/extra.conf", Dst: "/etc/ovtagpkg/everyone.conf"})
+			add(c, smallTree(), "overrides-and-tags")
+		}
+		// one source shipped to several destinations with different declared modes / mtimes / owners
+		{
+			c := baseCfg("samesrcpkg")
+			c.Entries = []Entry{plain, {Type: "file", Src: "src/app.conf", Dst: "/etc/samesrcpkg/a.conf", Fi: Fi{Mode: 0o600, Mt: 1300000000, Owner: "app", Group: "grp"}, HasFi: true},
+				{Type: "file", Src: "src/app.conf", Dst: "/etc/samesrcpkg/b.conf", Fi: Fi{Mode: 0o644, Mt: 1310000000}, HasFi: true},
+				{Type: "config", Src: "src/app.conf", Dst: "/etc/samesrcpkg/c.conf", Fi: Fi{Mode: 0o4755, Group: "adm"}, HasFi: true},
+				{Type: "file", Src: "src/app.conf", Dst: "/usr/share/samesrcpkg/d.conf"}}
+			add(c, smallTree(), "same-source")
 		}
 		// a directory as the source of a file entry: with a destination that ends in a slash every file found below it goes
 		// directly into that directory; without the slash the structure is kept
